@@ -6,6 +6,7 @@ import (
 	"errors"
 	"fmt"
 	"os"
+	"path/filepath"
 	"strconv"
 	"strings"
 	"time"
@@ -45,30 +46,100 @@ func c09RaceSeen() string {
 	return "norace"
 }
 
-// Circuit breaker for non-termination.  A call that does not return costs the whole per-case timeout (the runner
+// Circuit breaker for non-termination.  A call that does not return costs the whole per-request timeout (the runner
 // prints `timeout` and exits; the check restarts the binary).  If CircularLigate regresses into non-termination, hundreds
 // of generated pools hang and the check would run for hours.  Shortly before the runner's deadline a watchdog records the
-// hang in a file shared by all harness processes of this check run (named after the parent process); once three hangs are
-// on record the remaining requests are answered `ok not-run` without calling the code (judged `skip`, not `pass`): the
-// three timeouts already are failing inputs.
+// hung request in a file of THIS check run; once three are on record the remaining requests are answered
+// `ok not-run <the three hung requests>` without calling the code.  Safeguards:
+//   - the file lives in <build>/C09 (next to the binaries, never under /tmp) and is named after the parent process AND
+//     that process's start time from /proc, so a recycled pid cannot inherit it; files whose process is gone are removed
+//     whenever a harness process starts, and gen/c09.py removes the run's own file when the run begins and ends;
+//   - only requests the driver marked as lying inside the property's quantifier are recorded: each of them is judged
+//     `timeout` = FAIL in the same run, so an open breaker always comes with at least three failing inputs; hangs on
+//     out-of-quantifier probes never open it;
+//   - the driver excuses a `not-run` reply (skip) only if it names three in-quantifier hung requests, otherwise FAIL.
 const c09MaxHangs = 3
 
-func c09HangFile() string {
-	return fmt.Sprintf("%s/verif-c09-hangs-%d", os.TempDir(), os.Getppid())
-}
-
-func c09Hangs() int {
-	st, err := os.Stat(c09HangFile())
-	if err != nil || time.Since(st.ModTime()) > 6*time.Hour {
-		return 0
+func c09StartTime(pid int) string {
+	data, err := os.ReadFile(fmt.Sprintf("/proc/%d/stat", pid))
+	if err != nil {
+		return ""
 	}
-	return int(st.Size())
+	text := string(data)
+	i := strings.LastIndex(text, ")")
+	if i < 0 {
+		return ""
+	}
+	f := strings.Fields(text[i+1:])
+	if len(f) < 20 {
+		return ""
+	}
+	return f[19]
 }
 
-// c09Guard runs f under the watchdog; it returns false when the breaker is open (f was not run).
-func c09Guard(f func()) bool {
-	if c09Hangs() >= c09MaxHangs {
-		return false
+func c09StateDir() string {
+	exe, err := os.Executable()
+	if err != nil {
+		return ""
+	}
+	dir := filepath.Dir(exe)
+	if filepath.Base(dir) == "race" {
+		dir = filepath.Dir(dir)
+	}
+	return filepath.Join(filepath.Dir(dir), "C09")
+}
+
+func c09HangFile() string {
+	st := c09StartTime(os.Getppid())
+	dir := c09StateDir()
+	if st == "" || dir == "" {
+		return ""
+	}
+	return filepath.Join(dir, fmt.Sprintf("hangs-%d-%s", os.Getppid(), st))
+}
+
+func c09HungRequests() []string {
+	name := c09HangFile()
+	if name == "" {
+		return nil
+	}
+	data, err := os.ReadFile(name)
+	if err != nil {
+		return nil
+	}
+	var out []string
+	for _, l := range strings.Split(string(data), "\n") {
+		if l != "" {
+			out = append(out, l)
+		}
+	}
+	return out
+}
+
+func init() {
+	// remove the files of check runs whose process no longer exists
+	dir := c09StateDir()
+	if dir == "" {
+		return
+	}
+	names, _ := filepath.Glob(filepath.Join(dir, "hangs-*"))
+	for _, n := range names {
+		parts := strings.Split(filepath.Base(n), "-")
+		if len(parts) != 3 {
+			os.Remove(n)
+			continue
+		}
+		pid, err := strconv.Atoi(parts[1])
+		if err != nil || c09StartTime(pid) != parts[2] {
+			os.Remove(n)
+		}
+	}
+}
+
+// c09Guard runs f under the watchdog; it returns the hung requests on record when the breaker is open (f was not run).
+func c09Guard(inDomain bool, request string, f func()) []string {
+	if hung := c09HungRequests(); len(hung) >= c09MaxHangs {
+		return hung[:c09MaxHangs]
 	}
 	timeout := 20 * time.Second
 	if v := os.Getenv("VERIF_CASE_TIMEOUT_MS"); v != "" {
@@ -81,15 +152,20 @@ func c09Guard(f func()) bool {
 		select {
 		case <-done:
 		case <-time.After(timeout - timeout/10):
-			if fh, err := os.OpenFile(c09HangFile(), os.O_APPEND|os.O_CREATE|os.O_WRONLY, 0o644); err == nil {
-				fh.WriteString("x")
+			name := c09HangFile()
+			if !inDomain || name == "" {
+				return
+			}
+			os.MkdirAll(filepath.Dir(name), 0o755)
+			if fh, err := os.OpenFile(name, os.O_APPEND|os.O_CREATE|os.O_WRONLY, 0o644); err == nil {
+				fh.WriteString(request + "\n")
 				fh.Close()
 			}
 		}
 	}()
 	f()
 	close(done)
-	return true
+	return nil
 }
 
 func c09ParsePool(s string) ([]clone.Fragment, error) {
@@ -138,14 +214,15 @@ func c09Run(parts []clone.Part) string {
 func init() {
 	runner.Register("ligate", func(a []string) ([]string, error) {
 		out := []string{""}
-		for _, text := range a {
+		inDomain := a[0] == "true"
+		for _, text := range a[1:] {
 			pool, err := c09ParsePool(text)
 			if err != nil {
 				return nil, err
 			}
 			var constructs []clone.Part
-			if !c09Guard(func() { constructs = clone.CircularLigate(pool) }) {
-				return []string{"not-run"}, nil
+			if hung := c09Guard(inDomain, "L|"+text, func() { constructs = clone.CircularLigate(pool) }); hung != nil {
+				return append([]string{"not-run"}, hung...), nil
 			}
 			out = append(out, c09Run(constructs))
 		}
@@ -154,15 +231,16 @@ func init() {
 	})
 	runner.Register("goldengate", func(a []string) ([]string, error) {
 		out := []string{""}
-		enzyme := a[0]
-		for _, text := range a[1:] {
+		inDomain := a[0] == "true"
+		enzyme := a[1]
+		for _, text := range a[2:] {
 			parts, err := c09ParseParts(text)
 			if err != nil {
 				return nil, err
 			}
 			var constructs []clone.Part
-			if !c09Guard(func() { constructs, err = clone.GoldenGate(parts, enzyme) }) {
-				return []string{"not-run"}, nil
+			if hung := c09Guard(inDomain, "G|"+enzyme+"|"+text, func() { constructs, err = clone.GoldenGate(parts, enzyme) }); hung != nil {
+				return append([]string{"not-run"}, hung...), nil
 			}
 			if err != nil {
 				return nil, err
@@ -170,7 +248,7 @@ func init() {
 			out = append(out, c09Run(constructs))
 		}
 		// the fragments GoldenGate cuts the parts into (first input order)
-		parts, _ := c09ParseParts(a[1])
+		parts, _ := c09ParseParts(a[2])
 		var cuts []string
 		for _, part := range parts {
 			fragments, err := clone.CutWithEnzymeByName(part, true, enzyme)
